@@ -23,12 +23,7 @@ func LCC(this *SR) (forward, inverse Transformer, err error) {
 	if math.IsNaN(this.K0) {
 		this.K0 = 1
 	}
-	if math.IsNaN(this.X0) {
-		this.X0 = 0
-	}
-	if math.IsNaN(this.Y0) {
-		this.Y0 = 0
-	}
+	defaultOrigin(this)
 	// Standard Parallels cannot be equal and on opposite sides of the equator
 	if math.Abs(this.Lat1+this.Lat2) < epsln {
 		err = fmt.Errorf("proj.LCC: standard Parallels cannot be equal and on opposite sides of the equator")
